@@ -196,7 +196,7 @@ template <> struct tokval<sym::real>
     static bool well_formatted(std::string const& w)
     {
         auto const& t = sym::E().tokens.at(std::stoul(w.substr(1)));
-        return t.scientific && t.precision >= std::numeric_limits<sym::real>::max_digits10 - 1;
+        return t.lossless;
     }
 };
 template <typename F> struct tokval
